@@ -2,20 +2,20 @@
 @@ RaftDataHandler::load_log spec
     // C07 (start-up replay): exactly the messages the entry stands for, nothing else, whatever the components answer
     ensures
-        r is Ok ==> final(vx_log).s == old(vx_log).s + effs(req),
+        r is Ok ==> final(vx_log).s == old(vx_log).s + effs(*self, *index_manager, req),
         r is Err ==> undecodable(req) && final(vx_log).s == old(vx_log).s,
 @@ RaftDataHandler::apply_log_to_state_machine effects send do_send
 @@ RaftDataHandler::apply_log_to_state_machine spec
     // C07 (leader): an applied entry has sent exactly the messages it stands for; when a component fails the entry's
     // message was still delivered at most once and nothing else was sent
     ensures
-        r is Ok ==> final(vx_log).s == old(vx_log).s + effs(req),
-        r is Err ==> final(vx_log).s == old(vx_log).s + effs(req) || (undecodable(req) && final(vx_log).s == old(vx_log).s),
+        r is Ok ==> final(vx_log).s == old(vx_log).s + effs(*self, *index_manager, req),
+        r is Err ==> final(vx_log).s == old(vx_log).s + effs(*self, *index_manager, req) || (undecodable(req) && final(vx_log).s == old(vx_log).s),
 @@ RaftDataHandler::do_send_log effects send do_send
 @@ RaftDataHandler::do_send_log spec
     // C07 (follower replication)
     ensures
-        r is Ok ==> final(vx_log).s == old(vx_log).s + effs(req),
+        r is Ok ==> final(vx_log).s == old(vx_log).s + effs(*self, *index_manager, req),
         r is Err ==> undecodable(req) && final(vx_log).s == old(vx_log).s,
 @@ RaftDataHandler::load_log subst
     (&key as &str) => key.as_str()
@@ -36,7 +36,7 @@
     // C07 (start-up replay of one stored record): a record that carries a client request sends exactly that request's
     // messages; every other record sends nothing
     ensures
-        r is Ok ==> final(vx_log).s == old(vx_log).s + (if req_of_record(record) is Some { effs(req_of_record(record).unwrap()) } else { seq![] }),
+        r is Ok ==> final(vx_log).s == old(vx_log).s + (if req_of_record(record) is Some { effs(*self.data_wrap, self.index_manager, req_of_record(record).unwrap()) } else { seq![] }),
         r is Err ==> final(vx_log).s == old(vx_log).s,
 @@ StateApplyManager::apply_snapshot external
 @@ StateApplyManager::apply_snapshot skip_body
@@ -44,15 +44,15 @@
 @@ StateApplyManager::apply_request_to_state_machine spec
     requires old(self).wired()
     ensures *final(self) == *old(self),
-        r is Ok ==> final(vx_log).s == old(vx_log).s + effs(request.request),
+        r is Ok ==> final(vx_log).s == old(vx_log).s + effs(old(self).h(), old(self).im(), request.request),
         r is Err ==> undecodable(request.request) && final(vx_log).s == old(vx_log).s,
 @@ StateApplyManager::async_apply_request_to_state_machine effects do_send
 @@ StateApplyManager::async_apply_request_to_state_machine effects_pass apply_log_to_state_machine
 @@ StateApplyManager::async_apply_request_to_state_machine spec
     // C07 (leader, one entry) + bookkeeping: after the entry's messages, the applied index — and only when it was applied
     ensures
-        r is Ok ==> final(vx_log).s == (old(vx_log).s + effs(request.request)).push(saved_applied(request.index)),
-        r is Err ==> final(vx_log).s == old(vx_log).s + effs(request.request) || (undecodable(request.request) && final(vx_log).s == old(vx_log).s),
+        r is Ok ==> final(vx_log).s == (old(vx_log).s + effs(*raft_data_wrap, index_manager, request.request)).push(saved_applied(index_manager, request.index)),
+        r is Err ==> final(vx_log).s == old(vx_log).s + effs(*raft_data_wrap, index_manager, request.request) || (undecodable(request.request) && final(vx_log).s == old(vx_log).s),
 @@ StateApplyManager::handle@Handler<StateApplyRequest> effects do_send
 @@ StateApplyManager::handle@Handler<StateApplyRequest> effects_pass apply_request_to_state_machine
 @@ StateApplyManager::handle@Handler<StateApplyRequest> foriter 1 it
@@ -61,7 +61,7 @@
     ensures
         // C07 (follower, one replicated batch of ANY length): the messages of every entry, in log order, then the applied index
         msg matches StateApplyRequest::ApplyBatchRequest(requests) ==> final(self).wired() && (
-            (r is Ok ==> final(vx_log).s == (old(vx_log).s + effs_all(reqs_of(requests@))).push(saved_applied(final(self).last_applied_log))
+            (r is Ok ==> final(vx_log).s == (old(vx_log).s + effs_all(old(self).h(), old(self).im(), reqs_of(requests@))).push(saved_applied(old(self).im(), final(self).last_applied_log))
                 && (requests@.len() > 0 ==> final(self).last_applied_log == requests@.last().index)
                 && (requests@.len() == 0 ==> final(self).last_applied_log == old(self).last_applied_log))
             && (r is Err ==> exists|i: int| 0 <= i < requests@.len() && undecodable(#[trigger] requests@[i].request))
@@ -69,11 +69,11 @@
 @@ StateApplyManager::handle@Handler<StateApplyRequest> loop 1
     invariant
         it.seq() == requests0@, self.wired(), msg == StateApplyRequest::ApplyBatchRequest(requests0),
-        self.last_applied_log == lal, self.index_manager == old(self).index_manager,
-        vx_log.s == l0 + effs_all(reqs_of(requests0@.take(it.index@ as int))),
+        self.last_applied_log == lal, self.index_manager == old(self).index_manager, self.data_wrap == old(self).data_wrap,
+        vx_log.s == l0 + effs_all(old(self).h(), old(self).im(), reqs_of(requests0@.take(it.index@ as int))),
 @@ StateApplyManager::handle@Handler<StateApplyRequest> loop 1 body_entry
     let ghost k = it.index@ as int;
-    proof { lemma_effs_all_step(requests0@, k); assert(requests0@[k] == request); }
+    proof { lemma_effs_all_step(old(self).h(), old(self).im(), requests0@, k); assert(requests0@[k] == request); }
 @@ StateApplyManager::handle@Handler<StateApplyRequest> subst
     super::raftindex::RaftIndexRequest => RaftIndexRequest
     Self::Context => Context<Self>
@@ -86,7 +86,35 @@
     proof {
         assert(requests0@.take(0) =~= Seq::<ApplyRequestDto>::empty());
         assert(reqs_of(requests0@.take(0)).len() == 0);
-        assert(l0 + effs_all(reqs_of(requests0@.take(0))) =~= l0);
+        assert(l0 + effs_all(old(self).h(), old(self).im(), reqs_of(requests0@.take(0))) =~= l0);
     }
 @@ StateApplyManager::handle@Handler<StateApplyRequest> after_loop 1
     proof { assert(requests0@.take(requests0@.len() as int) =~= requests0@); }
+@@ RaftDataHandler::load_snapshot effects send do_send
+@@ RaftDataHandler::load_snapshot subst
+    ConfigKey::from(&String::from_utf8(record.key)? as &str) => ConfigKey::from(String::from_utf8(record.key)?.as_str())
+    &key as &str == SEQ_KEY_CONFIG => AsRef::<str>::as_ref(&key) == SEQ_KEY_CONFIG
+@@ RaftDataHandler::load_snapshot spec
+    // C01 (restart, snapshot half): every snapshot record is handed, unchanged, to the component that owns its tree — and to
+    // nobody else; nothing is sent for a record that cannot be decoded
+    ensures
+        r is Ok ==> final(vx_log).s == old(vx_log).s + snap_effs(*self, record),
+        r is Err ==> final(vx_log).s == old(vx_log).s + snap_effs(*self, record) || (snap_undecodable(record) && final(vx_log).s == old(vx_log).s),
+@@ RaftDataHandler::load_snapshot entry
+    broadcast use axiom_eff_table_set;
+@@ RaftDataHandler::build_snapshot effects send do_send
+@@ RaftDataHandler::build_snapshot spec
+    // C01 (compaction): all seven components are asked to write their state to THE writer, each exactly once
+    ensures
+        r is Ok ==> final(vx_log).s == old(vx_log).s + seq![
+            sent(self.sequence_db, RaftApplyDataRequest::BuildSnapshot(writer)), sent(self.config, ConfigCmd::BuildSnapshot(writer)),
+            sent(self.table, TableManagerInnerReq::BuildSnapshot(writer)), sent(self.namespace, RaftApplyDataRequest::BuildSnapshot(writer)),
+            sent(self.mcp_manager, RaftApplyDataRequest::BuildSnapshot(writer)), sent(self.naming_actor, RaftApplyDataRequest::BuildSnapshot(writer)),
+            sent(self.direct_cache_manager, RaftApplyDataRequest::BuildSnapshot(writer))],
+@@ RaftDataHandler::load_complete effects send do_send
+@@ RaftDataHandler::load_complete spec
+    // C01: the end of loading is announced to the five components that wait for it, once each
+    ensures r is Ok, final(vx_log).s == old(vx_log).s + seq![
+        sent(self.namespace, RaftApplyDataRequest::LoadCompleted), sent(self.sequence_db, RaftApplyDataRequest::LoadCompleted),
+        sent(self.mcp_manager, RaftApplyDataRequest::LoadCompleted), sent(self.naming_actor, RaftApplyDataRequest::LoadCompleted),
+        sent(self.direct_cache_manager, RaftApplyDataRequest::LoadCompleted)],
